@@ -281,6 +281,21 @@ def mon_limits(tr, m1, m2):
     return out
 
 
+def mon_deadline(tr):
+    """C13 "never waits beyond what PauseTimeout permits": whenever the broker stalls inside the handshake reply or inside a
+    packet (the scripted connection reports where the stream stands), a read deadline must be armed - the harness configures a
+    non-zero PauseTimeout and never lets time pass, so an unarmed wait there would last for ever"""
+    out = []
+    for i, (op, lines) in enumerate(tr):
+        for l in lines:
+            p = l.split()
+            if l.startswith("ev stall ") and p[-1] == "unarmed":
+                out.append(("deadline:unarmed-wait:" + ("readall" if op.split()[:1] == ["readall"] else p[3]),
+                            "during `%s` the client waits for the stalled broker %s without a read deadline (connection %s)"
+                            % (op[:40], "inside the handshake reply" if p[3] == "handshake" else "inside a packet", p[2])))
+    return out
+
+
 def mon_unordered_ids(tr):
     """C17/C11: a SUBSCRIBE or UNSUBSCRIBE never goes out with an identifier that another request still holds, and the
     identifiers stay inside their 13-bit spaces (0x6000.. subscribe, 0x4000.. unsubscribe)"""
@@ -329,17 +344,26 @@ def mon_errors(tr):
     """C14: error classes per method; not-submitted classes wrote nothing."""
     out = []
     kind_of = {}
+    wrote_for = set()
     for i, (op, lines) in enumerate(tr):
         f = op.split()
         if f and f[0] == "call":
             kind_of[f[1]] = f[2]
         wrote = any(l.startswith("ev w ") for l in lines)
+        if f and f[0] == "call":
+            # bytes of this very request on the wire (whole or a prefix: they start with its packet type), while it did not return yet
+            head = {"ping": ("c0",), "sub": ("82",), "unsub": ("a2",), "pub": ("30", "31")}.get(f[2], ())
+            if any(l.startswith("ev w ") and l.split()[3].startswith(head) for l in lines) and head:
+                wrote_for.add(f[1])
         for l in lines:
             p = l.split()
             if l.startswith("ret ") and p[1] in kind_of:
                 tags = set(t.split(":")[0] for t in p[2].split("+"))
                 main = tags - DETAIL
                 allowed = DOC_CLASSES[kind_of[p[1]]]
+                if p[1] in wrote_for and main and main <= NOT_SUBMITTED and not (f and f[0] == "call" and f[1] == p[1]):
+                    out.append(("errors:not-submitted-wrote", "%s %s returned `%s` (a class that promises nothing was sent) although its request was written to the connection earlier"
+                                % (kind_of[p[1]], p[1], p[2])))
                 if not main or not main <= allowed:
                     out.append(("errors:undocumented:" + kind_of[p[1]], "%s returned an error outside its documented classes: %s" % (kind_of[p[1]], p[2])))
                 if f and f[0] == "call" and f[1] == p[1] and (main & NOT_SUBMITTED) and wrote and "submit" not in main:
